@@ -510,6 +510,13 @@ struct level_struct
 {
     std::vector<std::string> leaves, groups, data;
 };
+// visit(enum value): reported tag name ("unknown" for unknown_enum_value_tag)
+// and the deprecated enum_to_string
+struct enum_ops
+{
+    std::function<std::string(std::uint64_t)> visit_tag;
+    std::function<std::string(std::uint64_t)> to_string; // "(null)" for nullptr
+};
 struct visit_ops
 {
     // returns the cursor offset (relative to the message start) afterwards
@@ -521,6 +528,7 @@ struct registry
     std::map<std::string, member_ops> members;
     std::map<std::string, visit_ops> visits;
     std::map<std::string, tagged_ops> tagged;
+    std::map<std::string, enum_ops> enums;
     std::map<std::string, level_struct> structs;
     std::map<std::string, leaf_ops> leaves;
     std::map<std::string, level_ops> levels;
@@ -581,6 +589,13 @@ struct reg_struct
     reg_struct(const char* k, level_struct o)
     {
         registry::get().structs[k] = std::move(o);
+    }
+};
+struct reg_enum
+{
+    reg_enum(const char* k, enum_ops o)
+    {
+        registry::get().enums[k] = std::move(o);
     }
 };
 struct reg_visit
@@ -675,6 +690,43 @@ void assign_data(D d, const bytes& b)
                             ::sbepp::visit_children(m, c, v);                 \
                             return c.pointer() - p;                           \
                         }})
+
+// enum visiting: one overload per value tag (tag identity observed directly)
+#define VH_ENUM_BEGIN(ID, E)                                                  \
+    struct vh_enum_vis_##ID                                                   \
+    {                                                                         \
+        std::string got = "(no callback)";                                    \
+        int calls = 0;                                                        \
+        void on_enum_value(E, ::sbepp::unknown_enum_value_tag)                \
+        {                                                                     \
+            got = "unknown";                                                  \
+            calls++;                                                          \
+        }
+#define VH_ENUM_VALUE(E, TAG, NAME)                                           \
+    void on_enum_value(E, TAG)                                                \
+    {                                                                         \
+        got = NAME;                                                           \
+        calls++;                                                              \
+    }
+#define VH_ENUM_END(ID, KEY, E)                                               \
+    }                                                                         \
+    ;                                                                         \
+    static ::vh::reg_enum VH_CAT(vh_r_, __COUNTER__)(                         \
+        KEY,                                                                  \
+        ::vh::enum_ops{                                                       \
+            [](std::uint64_t v) -> std::string                                \
+            {                                                                 \
+                vh_enum_vis_##ID vis;                                         \
+                ::sbepp::visit(static_cast<E>(v), vis);                       \
+                return vis.calls == 1 ? vis.got                               \
+                                      : "(" + std::to_string(vis.calls)       \
+                                            + " callbacks)";                  \
+            },                                                                \
+            [](std::uint64_t v) -> std::string                                \
+            {                                                                 \
+                const char* n = ::sbepp::enum_to_string(static_cast<E>(v));   \
+                return n ? n : "(null)";                                      \
+            }});
 
 #define VH_REG_STRUCT(KEY, ...) \
     static ::vh::reg_struct VH_CAT(vh_r_, __COUNTER__)(KEY, ::vh::level_struct __VA_ARGS__)
